@@ -166,3 +166,47 @@ fn s_vv_inc() {
     oblige!("S.vv.new.zero", eq(&z, &zero_vv()) && le(&z, &a));
     reach!("s_vv_inc");
 }
+
+// ---- contract models (stubs for callers; each is the unique function satisfying the contract
+// ---- proved by the harness named in the comment) ---------------------------------------------
+impl VersionVec {
+    /// Model of `VersionVec::join` = the pointwise maximum (proved: s_vv_join).
+    pub(crate) fn join_model(&mut self, other: &VersionVec) {
+        let mut i = 0;
+        while i < MAX_THREADS {
+            if other.versions[i] > self.versions[i] {
+                self.versions[i] = other.versions[i];
+            }
+            i += 1;
+        }
+    }
+
+    /// Model of `VersionVec::ahead` = least index where `self < other` (proved: s_vv_ahead).
+    pub(crate) fn ahead_model(&self, other: &VersionVec) -> Option<usize> {
+        let mut r = None;
+        let mut i = MAX_THREADS;
+        while i > 0 {
+            i -= 1;
+            if self.versions[i] < other.versions[i] {
+                r = Some(i);
+            }
+        }
+        r
+    }
+}
+
+//@ props=C02,C03,C04 tier=quick fns=src/rt/vv.rs::VersionVec::join,src/rt/vv.rs::VersionVec::ahead
+#[kani::proof]
+#[kani::unwind(7)]
+fn s_vv_models_agree() {
+    // the models used as stubs elsewhere compute exactly what the real functions compute
+    let a = any_vv();
+    let b = any_vv();
+    let mut r1 = a;
+    r1.join(&b);
+    let mut r2 = a;
+    r2.join_model(&b);
+    oblige!("S.vv.join.model_equals_real", eq(&r1, &r2));
+    oblige!("S.vv.ahead.model_equals_real", a.ahead(&b) == a.ahead_model(&b));
+    reach!("s_vv_models_agree");
+}
